@@ -423,6 +423,11 @@ func timedCopy(clientAddr net.Addr, clientConn net.PacketConn, targetConn *natco
 
 			debugUDPAddr(l, "Got response.", clientAddr, slog.Any("target", raddr))
 			srcAddr := socks.ParseAddr(raddr.String())
+			if srcAddr == nil || len(srcAddr) > maxAddrLen {
+				// E.g. a zoned link-local IPv6 sender, which is encoded as a domain name and
+				// would not fit in the space reserved for the address.
+				return onet.NewConnectionError("ERR_CONVERT_ADDRESS", "Failed to convert target address", nil)
+			}
 			addrStart := bodyStart - len(srcAddr)
 			// `plainTextBuf` concatenates the SOCKS address and body:
 			// [padding?][salt][address][body][tag][unused]
